@@ -225,6 +225,19 @@ impl<T: Iterator<Item = char>> saphyr_parser::Input for EofSafeInput<T> {
         self.0.peek_nth(n)
     }
 
+    fn skip_while_non_breakz(&mut self) -> usize {
+        // The scanner adds the result to its character index. `StrInput` returns the number of
+        // characters; the trait's default, which `BufferedInput` inherits, returns the number
+        // of UTF-8 bytes, so the character offsets of everything behind a comment with
+        // non-ASCII text differed between string and reader input.
+        let mut n = 0;
+        while !matches!(self.look_ch(), '\0' | '\n' | '\r') {
+            self.skip();
+            n += 1;
+        }
+        n
+    }
+
     fn fetch_while_is_yaml_non_space(&mut self, out: &mut String) -> usize {
         let mut n = 0;
         loop {
